@@ -166,6 +166,12 @@ def input_cycle_cases():
                 schema = "schema { query: Q }\ntype Q { f(a: In0): Int }\n" + "\n".join(defs) + "\n"
                 out.append({"family": "input_cycle", "desc": "len=%d edge=%s oneOf=%s" % (n, k % "T", one_of), "schema": schema,
                             "ext": "graphql", "query": "query Op($a: In0) { f(a: $a) }\n"})
+                # the variable declares a default: object literals that leave the cyclic members out, spell one level out,
+                # are empty, null them, or put a list there (complete or not - the generator has to answer, not to loop)
+                for di, lit in enumerate(["{v: 1}", "{}", "{next: null}", "{next: {v: 2}}", "{next: {next: {v: 3}}, other: {v: 4}}",
+                                          "{next: [], other: []}", "{next: [{v: 5}], v: 1}", "null"]):
+                    out.append({"family": "input_cycle", "desc": "len=%d edge=%s oneOf=%s default=%s" % (n, k % "T", one_of, lit), "schema": schema,
+                                "ext": "graphql", "query": "query Op($a: In0 = %s, $b: [In0!] = [%s]) { f(a: $a) }\n" % (lit, lit)})
     return out
 
 
